@@ -103,9 +103,23 @@ func (x *bkExtractor) walk(stmts []ast.Stmt, operand string, guards []string, ou
 	for _, st := range stmts {
 		switch s := st.(type) {
 		case *ast.IfStmt:
-			cond := normExpr(s.Cond, operand)
+			// a conjunction contributes its conjuncts one by one (so that nesting two tests and
+			// writing them as one && are the same guard); the else branch negates the sorted conjunction
+			var conj []string
+			var flat func(e ast.Expr)
+			flat = func(e ast.Expr) {
+				if be, ok := ast.Unparen(e).(*ast.BinaryExpr); ok && be.Op == token.LAND {
+					flat(be.X)
+					flat(be.Y)
+					return
+				}
+				conj = append(conj, normExpr(ast.Unparen(e), operand))
+			}
+			flat(s.Cond)
+			sort.Strings(conj)
+			cond := strings.Join(conj, " && ")
 			// only conditions on the operand are bookkeeping guards
-			x.walk(s.Body.List, operand, append(append([]string(nil), guards...), cond), out)
+			x.walk(s.Body.List, operand, append(append([]string(nil), guards...), conj...), out)
 			if s.Else != nil {
 				neg := "!(" + cond + ")"
 				switch e := s.Else.(type) {
@@ -1144,4 +1158,129 @@ func ruleAreaSiblings(c *Ctx) {
 		}
 	}
 	c.check(okSteps && n >= 2, "circle-steps", pa.Decl.Pos(), "every NewCircle uses the same step constant", "circles are approximated with different step counts in TEST and in the search commands")
+}
+
+func init() {
+	register(&Rule{ID: "R20.remove-revisits-slot", Props: []string{"C20", "C05"}, Floor: 1,
+		Text: "in every index loop `for i := …; i < len(X); i++` of internal/server and internal/collection whose body removes element i from X (swap-remove X[i] = X[len(X)-1]; X = X[:len(X)-1], or X = append(X[:i], X[i+1:]...)), every path from the removal to the loop's increment passes i--: the element moved into slot i is examined too (in fenceMatchRoam a skipped dwelling neighbour is reported as faraway)",
+		Run:  ruleRemoveRevisits})
+}
+
+func ruleRemoveRevisits(c *Ctx) {
+	n := 0
+	for _, rel := range []string{"internal/server", "internal/collection"} {
+		for _, fn := range c.AllFuncs(rel) {
+			info := fn.Info()
+			var fg *FlowGraph
+			ast.Inspect(fn.Decl.Body, func(x ast.Node) bool {
+				fs, ok := x.(*ast.ForStmt)
+				if !ok || fs.Cond == nil || fs.Post == nil {
+					return true
+				}
+				be, ok := ast.Unparen(fs.Cond).(*ast.BinaryExpr)
+				if !ok || be.Op != token.LSS {
+					return true
+				}
+				iv, ok := ast.Unparen(be.X).(*ast.Ident)
+				if !ok {
+					return true
+				}
+				lc, ok := ast.Unparen(be.Y).(*ast.CallExpr)
+				if !ok || len(lc.Args) != 1 {
+					return true
+				}
+				if id, ok := ast.Unparen(lc.Fun).(*ast.Ident); !ok || id.Name != "len" {
+					return true
+				}
+				inc, ok := fs.Post.(*ast.IncDecStmt)
+				if !ok || inc.Tok != token.INC {
+					return true
+				}
+				if pid, ok := ast.Unparen(inc.X).(*ast.Ident); !ok || info.ObjectOf(pid) != info.ObjectOf(iv) {
+					return true
+				}
+				X := lc.Args[0]
+				iObj := info.ObjectOf(iv)
+				isI := func(e ast.Expr) bool {
+					id, ok := ast.Unparen(e).(*ast.Ident)
+					return ok && info.ObjectOf(id) == iObj
+				}
+				// removals of element i in the body (not inside nested literals or nested loops over the same slice)
+				var removals []*ast.AssignStmt
+				inspectNoLit(fs.Body, func(y ast.Node) bool {
+					as, ok := y.(*ast.AssignStmt)
+					if !ok || len(as.Lhs) != 1 || len(as.Rhs) != 1 || !sameExpr(info, as.Lhs[0], X) {
+						return true
+					}
+					switch r := ast.Unparen(as.Rhs[0]).(type) {
+					case *ast.CallExpr:
+						// X = append(X[:i], X[i+1:]...)
+						if id, ok := ast.Unparen(r.Fun).(*ast.Ident); ok && id.Name == "append" && r.Ellipsis.IsValid() && len(r.Args) == 2 {
+							s0, ok0 := ast.Unparen(r.Args[0]).(*ast.SliceExpr)
+							s1, ok1 := ast.Unparen(r.Args[1]).(*ast.SliceExpr)
+							if ok0 && ok1 && sameExpr(info, s0.X, X) && sameExpr(info, s1.X, X) && s0.Low == nil && s0.High != nil && isI(s0.High) && s1.High == nil && s1.Low != nil {
+								if lb, ok := ast.Unparen(s1.Low).(*ast.BinaryExpr); ok && lb.Op == token.ADD && isI(lb.X) {
+									removals = append(removals, as)
+								}
+							}
+						}
+					case *ast.SliceExpr:
+						// X = X[:len(X)-1] preceded in the same block by X[i] = X[len(X)-1]
+						if sameExpr(info, r.X, X) && r.Low == nil && r.High != nil {
+							if hb, ok := ast.Unparen(r.High).(*ast.BinaryExpr); ok && hb.Op == token.SUB {
+								swapped := false
+								inspectNoLit(fs.Body, func(z ast.Node) bool {
+									if sw, ok := z.(*ast.AssignStmt); ok && len(sw.Lhs) == 1 && sw.End() <= as.Pos() {
+										if ix, ok := ast.Unparen(sw.Lhs[0]).(*ast.IndexExpr); ok && sameExpr(info, ix.X, X) && isI(ix.Index) {
+											swapped = true
+										}
+									}
+									return true
+								})
+								if swapped {
+									removals = append(removals, as)
+								}
+							}
+						}
+					}
+					return true
+				})
+				if len(removals) == 0 {
+					return true
+				}
+				if fg == nil {
+					fg = newFlowGraph(info, fn.Decl.Body)
+				}
+				postLoc := fg.LocOf(fs.Post)
+				for _, rm := range removals {
+					n++
+					key := funcName(fn.Obj) + "→" + exprStr(X) + "[" + iv.Name + "]"
+					rl := fg.LocOf(rm)
+					if !rl.Valid() || !postLoc.Valid() {
+						c.und(key, rm.Pos(), "removal or loop increment not located in the flow graph")
+						continue
+					}
+					skip, _ := fg.Reach(PathQuery{From: rl,
+						Target: func(l Loc) bool { return l.Block == postLoc.Block && l.Idx == postLoc.Idx },
+						Avoid: func(l Loc) bool {
+							hit := false
+							inspectNoLit(l.Node, func(z ast.Node) bool {
+								if d, ok := z.(*ast.IncDecStmt); ok && d.Tok == token.DEC && isI(d.X) {
+									hit = true
+								}
+								return true
+							})
+							return hit
+						}})
+					if skip {
+						c.bad(key, rm.Pos(), "element %s is removed from %s inside the index loop and the loop increment is reachable without %s--: the element that takes its place is never examined", iv.Name, exprStr(X), iv.Name)
+					} else {
+						c.ok(key, rm.Pos(), true, "every path from the removal to the increment passes %s--", iv.Name)
+					}
+				}
+				return true
+			})
+		}
+	}
+	c.stat("in_loop_removals", n)
 }
